@@ -293,22 +293,30 @@ func main() {
 	if *show {
 		names := sortedKeys(byName)
 		for _, n := range names {
+			nok, nbad := 0, 0
+			var first *SolveResult
 			for _, r := range byName[n] {
 				ok := r.Status == r.Obl.Expect || (r.Obl.Expect == "sat" && r.Status == "unknown")
-				mark := "ok  "
-				if !ok {
-					mark = "FAIL"
-				}
-				fmt.Printf("%s %-8s %-70s %s %s\n", mark, r.Status, n, strings.Join(r.Tried, " "), r.Obl.Where)
-				if !ok {
-					fmt.Printf("       clause: %s\n", r.Obl.Src)
-					if r.Model != "" {
-						fmt.Printf("       model: %s\n", trimModel(r.Model, 1500))
-					}
-					if r.Output != "" {
-						fmt.Printf("       output: %s\n", r.Output)
+				if ok {
+					nok++
+				} else {
+					nbad++
+					if first == nil || (first.Status != "sat" && r.Status == "sat") {
+						first = r
 					}
 				}
+			}
+			if nbad == 0 {
+				fmt.Printf("ok   %-80s paths=%d\n", n, nok)
+				continue
+			}
+			fmt.Printf("FAIL %-80s paths ok=%d bad=%d  %s %s %s\n", n, nok, nbad, first.Status, strings.Join(first.Tried, " "), first.Obl.Where)
+			fmt.Printf("       clause: %s\n", trimModel(first.Obl.Src, 300))
+			if first.Model != "" && os.Getenv("GOVC_MODEL") != "" {
+				fmt.Printf("       model: %s\n", trimModel(first.Model, 3000))
+			}
+			if first.Output != "" {
+				fmt.Printf("       output: %s\n", trimModel(first.Output, 300))
 			}
 		}
 		for _, n := range sortedKeys(v.notes) {
